@@ -32,7 +32,7 @@ VarCases == UNION {{[kind |-> "VAR", q |-> q, sys |-> sys, name |-> nm] : sys \i
 
 \* names for the target renderings: every sequence of up to 2 (N > 3: 3) name characters, and the long / keyword classes
 TNames == (SeqsUpTo(TNameChars, IF N > 3 THEN 3 ELSE 2) \ {<<>>})
-          \cup {[i \in 1..65 |-> 97 + (i % 3)], [i \in 1..300 |-> 97 + (i % 5)], <<115, 101, 108, 101, 99, 116>>, <<65, 98, 67>>, <<48, 48, 55>>}
+          \cup {[i \in 1..70 |-> 97 + (i % 3)], <<115, 101, 108, 101, 99, 116>>, <<65, 98, 67>>, <<48, 48, 55>>}
 TCases == {[kind |-> "TNAME", w |-> w] : w \in TNames}
 TStyles == {"t_bq", "t_dq", "t_br"}
 
